@@ -5,6 +5,8 @@ from common import *
 from runner import Result
 import profiles, oracles
 
+RUNTIME_PROPS = {"C04", "C06", "C08", "C13"}
+
 
 def canon_facts(f):
     """Canonical form of a facts record for impl/model comparison."""
@@ -112,6 +114,8 @@ def correspond_gen(prop):
         cases = profiles.cases_for(prop, tier, seed())
         for i, c in enumerate(cases):
             c["id"] = i
+            if prop in RUNTIME_PROPS:
+                c["want_tokens"] = True
         impl, model, err = run_cases(prop, cases, want_model=not impl_only)
         if err:
             res.harness_error = err
@@ -165,6 +169,19 @@ def correspond_gen(prop):
                 res.spec_violations.append(v)
         if prop == "C16":
             res.spec_violations += oracles.check_groups_c16(cases, impl, model)
+        if prop in RUNTIME_PROPS:
+            import p_runtime
+            pairs = []
+            for c in cases:
+                a = impl.get(c["id"], {})
+                if a.get("facts", {}).get("outcome") == "ok":
+                    mf = (model or {}).get(c["id"], {}).get("facts") if model else None
+                    pairs.append((c, a, mf))
+            viols, rstats, rerr = p_runtime.run_probe(prop, pairs, max_devices=(60 if tier == "thorough" else 20))
+            res.spec_violations += viols
+            stats.update(rstats)
+            if rerr:
+                res.harness_error = rerr
         res.distinct_nontrivial = len(seen)
         res.stats = stats
         res.rule = oracles.RULES.get(prop, "")
